@@ -18,7 +18,8 @@ ivars == <<files, data, hist, d0>>
 UVals == {EV(e) : e \in Exprs} \cup {MV(<<S("x"), P(EA)>>), MV(<<P(EA), S(" "), P(Mem(Id("o"), "p"))>>)}
 UA == {File1(<<Elem("v", <<Attr(fn[1], fn[2], v)>>, <<>>)>>) :
           fn \in {<<"plain", "p-a">>, <<"class", "">>, <<"style", "">>, <<"id", "">>, <<"data:", "k">>, <<"mark:", "k">>,
-                  <<"bind", "tap">>, <<"model:", "v-x">>, <<"change:", "p-q">>, <<"slot", "">>}, v \in UVals}
+                  <<"bind", "tap">>, <<"mut-bind", "tap">>, <<"catch", "tap">>, <<"capture-bind", "tap">>, <<"capture-mut-bind", "tap">>,
+                  <<"capture-catch", "tap">>, <<"model:", "v-x">>, <<"change:", "p-q">>, <<"slot", "">>}, v \in UVals}
       \cup {File1(<<SlotEl(v, <<Attr("plain", "p-a", w)>>)>>) : v \in {EV(EA), SV("n")}, w \in {EV(EB), EV(Mem(Id("o"), "p"))}}
 UT == {File1(<<Text(ps)>>) : ps \in {x \in TextSeqs : GoodText(x) /\ \E i \in 1..Len(x) : x[i].t = "e"}}
 (* template data, includes, slot values, wxs: contexts through which a marked path must travel *)
